@@ -754,6 +754,7 @@ package binary
 
 //@ ghostalias rpos offsetReader.offset
 //@ axiom orView(o) = rin(o) == rin(o.reader) && rlen(o) == rlen(o.reader)
+//@ define lazyKept(z) = keptold(lazyValueList, count) && keptold(lazyValueList, typ) && keptold(lazyValueList, readerAt) && keptold(lazyValueList, startOffset) && keptold(lazyMapItemList, count) && keptold(lazyMapItemList, ktype) && keptold(lazyMapItemList, vtype) && keptold(lazyMapItemList, readerAt) && keptold(lazyMapItemList, startOffset)
 //@ define validRd(r) = r != nil && r.or != nil && r.sr != nil && typeis(r.sr.reader, *offsetReader) && r.sr.reader.(*offsetReader) == r.or && r.or.offset >= 0 && r.or.offset <= 4611686018427387904
 
 //@ contract (*offsetReader).Read
@@ -789,6 +790,7 @@ package binary
 //@   use orView(r.or)
 //@   let a = rin(r.or.reader)
 //@   modifies all
+//@   ensures(lazykept) lazyKept(0)
 //@   ensures(kept) unchanged(Reader, reader)
 //@   ensures(valid) validRd(r) && r.or.reader == old(r.or.reader) && r.or == old(r.or) && r.sr == old(r.sr)
 //@   ensures(off) result1 == r.or.offset && result1 >= off
@@ -802,6 +804,7 @@ package binary
 //@   ensures(i64) err == nil && t == 10 ==> int64(result0.tnumber) == int64(be64at(a, off))
 //@   ensures(binlen) err == nil && t == 11 ==> int32(be32at(a, off)) >= 0 && len(result0.tbinary) == int64(int32(be32at(a, off)))
 //@   ensures(binbytes) err == nil && t == 11 ==> forall(k, 0, len(result0.tbinary), result0.tbinary[k] == a[off + 4 + k])
+//@   ensures(binbytesend) err == nil && t == 11 ==> forall(k, 0, len(result0.tbinary), result0.tbinary[k] == a[result1 - len(result0.tbinary) + k])
 
 //@ contract (*reader).readStructStream
 //@   props C02 C03
@@ -812,9 +815,11 @@ package binary
 //@   let or0 = r.or
 //@   let sr0 = r.sr
 //@   modifies all
+//@   ensures(lazykept) lazyKept(0)
 //@   ensures(kept) unchanged(Reader, reader)
 //@   use unfoldFields(rin(r.or.reader), r.or.offset)
 //@   loop 1: invariant validRd(r) && r.or == or0 && r.sr == sr0 && rin(r.or.reader) == a && rin(r.or) == a && r.or.offset >= p0
+//@   loop 1: invariant(lazykept) lazyKept(0) && unchanged(Reader, reader)
 //@   loop 1: invariant(hdrpos) ok ==> r.or.offset >= p0 + 3 && a[r.or.offset - 3] != 0
 //@   loop 1: invariant(hdrtype) ok ==> fh.Type == int8(a[r.or.offset - 3])
 //@   loop 1: invariant(hdrend) ok ==> fieldsEnd(a, r.or.offset - 3) == fieldsEnd(a, p0)
@@ -834,6 +839,7 @@ package binary
 //@   let or0 = r.or
 //@   let sr0 = r.sr
 //@   modifies all
+//@   ensures(lazykept) lazyKept(0)
 //@   ensures(kept) unchanged(Reader, reader)
 //@   ensures(valid) validRd(r) && r.or == or0 && r.sr == sr0 && r.or.reader == old(r.or.reader)
 //@   ensures(end) err == nil ==> r.or.offset == skipEnd(a, 15, p0)
@@ -849,6 +855,7 @@ package binary
 //@   let or0 = r.or
 //@   let sr0 = r.sr
 //@   modifies all
+//@   ensures(lazykept) lazyKept(0)
 //@   ensures(kept) unchanged(Reader, reader)
 //@   ensures(valid) validRd(r) && r.or == or0 && r.sr == sr0 && r.or.reader == old(r.or.reader)
 //@   ensures(end) err == nil ==> r.or.offset == skipEnd(a, 14, p0)
@@ -864,6 +871,7 @@ package binary
 //@   let or0 = r.or
 //@   let sr0 = r.sr
 //@   modifies all
+//@   ensures(lazykept) lazyKept(0)
 //@   ensures(kept) unchanged(Reader, reader)
 //@   ensures(valid) validRd(r) && r.or == or0 && r.sr == sr0 && r.or.reader == old(r.or.reader)
 //@   ensures(end) err == nil ==> r.or.offset == skipEnd(a, 13, p0)
@@ -888,6 +896,7 @@ package binary
 //@   requires br != nil && off >= 0 && off <= 4611686018427387904
 //@   let a = rin(br.reader)
 //@   modifies all
+//@   ensures(lazykept) lazyKept(0)
 //@   ensures(kept) unchanged(Reader, reader)
 //@   ensures(off) result1 >= off
 //@   ensures(end) err == nil ==> result1 == skipEnd(a, t, off)
@@ -900,6 +909,105 @@ package binary
 //@   ensures(i64) err == nil && t == 10 ==> int64(result0.tnumber) == int64(be64at(a, off))
 //@   ensures(binlen) err == nil && t == 11 ==> int32(be32at(a, off)) >= 0 && len(result0.tbinary) == int64(int32(be32at(a, off)))
 //@   ensures(binbytes) err == nil && t == 11 ==> forall(k, 0, len(result0.tbinary), result0.tbinary[k] == a[off + 4 + k])
+
+// Lazy containers (lazy_list.go, C02/C03): ForEach hands the callback, for
+// i = 0 .. count-1 in this order, the value decoded at the i-th element
+// position (the precondition of the callback is an obligation at the call:
+// right type, right bytes, and the element ends where the remaining count-i-1
+// elements begin), and on success exactly count calls were made.
+// A-CALLBACK-FRAME: the callback does not modify the lazy list or the reader
+// ForEach decodes with (it only receives a value).
+//@ ghost fecalls (_ BitVec 64) protected
+
+//@ paramcontract (*lazyValueList).ForEach.f
+//@   requires(type) arg0.typ == ll.typ
+//@   requires(seq) listEnd(rin(ll.readerAt), ll.typ, int64(ll.count) - int64(i) - 1, off) == listEnd(rin(ll.readerAt), ll.typ, int64(ll.count), ll.startOffset)
+//@   requires(bool) ll.typ == 2 ==> (arg0.tnumber == 1 <==> rin(ll.readerAt)[off - 1] == 1)
+//@   requires(i8) ll.typ == 3 ==> int8(arg0.tnumber) == int8(rin(ll.readerAt)[off - 1])
+//@   requires(double) ll.typ == 4 ==> arg0.tnumber == be64at(rin(ll.readerAt), off - 8)
+//@   requires(i16) ll.typ == 6 ==> int16(arg0.tnumber) == int16(be16at(rin(ll.readerAt), off - 2))
+//@   requires(i32) ll.typ == 8 ==> int32(arg0.tnumber) == int32(be32at(rin(ll.readerAt), off - 4))
+//@   requires(i64) ll.typ == 10 ==> int64(arg0.tnumber) == int64(be64at(rin(ll.readerAt), off - 8))
+//@   requires(binlen) ll.typ == 11 ==> int64(int32(be32at(rin(ll.readerAt), off - 4 - len(arg0.tbinary)))) == len(arg0.tbinary)
+//@   requires(binbytes) ll.typ == 11 ==> forall(k, 0, len(arg0.tbinary), arg0.tbinary[k] == rin(ll.readerAt)[off - len(arg0.tbinary) + k])
+//@   modifies all, fecalls(ll)
+//@   ensures fecalls(ll) == old(fecalls(ll)) + 1
+//@   ensures lazyKept(0)
+//@   ensures unchanged(reader, or) && unchanged(reader, sr) && unchanged(offsetReader, reader) && unchanged(StreamReader, reader) && unchanged(Reader, reader)
+
+//@ contract (*lazyValueList).ForEach
+//@   props C02 C03
+//@   requires ll != nil && ll.count >= 0 && ll.startOffset >= 0 && ll.startOffset <= 4611686018427387904
+//@   let a = rin(ll.readerAt)
+//@   let c0 = fecalls(ll)
+//@   let n = ll.count
+//@   let t = ll.typ
+//@   let start = ll.startOffset
+//@   let ra = ll.readerAt
+//@   modifies all, fecalls(ll)
+//@   loop 1: invariant ll.count == n && ll.typ == t && ll.startOffset == start && ll.readerAt == ra && 0 <= i && i <= n
+//@   loop 1: invariant(rd) reader.or != nil && reader.sr != nil && typeis(reader.sr.reader, *offsetReader) && reader.sr.reader.(*offsetReader) == reader.or && reader.or.reader == ra && off >= 0 && off <= 4611686018427387904
+//@   loop 1: invariant(seq) listEnd(a, t, int64(n) - int64(i), off) == listEnd(a, t, int64(n), start)
+//@   loop 1: invariant(calls) fecalls(ll) == c0 + int64(i)
+//@   loop 1: invariant(kept) unchanged(Reader, reader)
+//@   loop 1: use unfoldList(a, t, int64(n) - int64(i), off)
+//@   loop 1: decreases int64(n) - int64(i)
+//@   ensures(all) err == nil ==> fecalls(ll) == c0 + int64(n)
+//@   ensures(kept) unchanged(Reader, reader)
+
+//@ paramcontract (*lazyMapItemList).ForEach.f
+//@   requires(types) arg0.Key.typ == lm.ktype && arg0.Value.typ == lm.vtype
+//@   requires(seq) mapEnd(rin(lm.readerAt), lm.ktype, lm.vtype, int64(lm.count) - int64(i) - 1, off) == mapEnd(rin(lm.readerAt), lm.ktype, lm.vtype, int64(lm.count), lm.startOffset)
+//@   requires(vbool) lm.vtype == 2 ==> (arg0.Value.tnumber == 1 <==> rin(lm.readerAt)[off - 1] == 1)
+//@   requires(vi8) lm.vtype == 3 ==> int8(arg0.Value.tnumber) == int8(rin(lm.readerAt)[off - 1])
+//@   requires(vdouble) lm.vtype == 4 ==> arg0.Value.tnumber == be64at(rin(lm.readerAt), off - 8)
+//@   requires(vi16) lm.vtype == 6 ==> int16(arg0.Value.tnumber) == int16(be16at(rin(lm.readerAt), off - 2))
+//@   requires(vi32) lm.vtype == 8 ==> int32(arg0.Value.tnumber) == int32(be32at(rin(lm.readerAt), off - 4))
+//@   requires(vi64) lm.vtype == 10 ==> int64(arg0.Value.tnumber) == int64(be64at(rin(lm.readerAt), off - 8))
+//@   requires(vbinbytes) lm.vtype == 11 ==> forall(k, 0, len(arg0.Value.tbinary), arg0.Value.tbinary[k] == rin(lm.readerAt)[off - len(arg0.Value.tbinary) + k])
+//@   requires(kbool) tyw(lm.vtype) != 0 && lm.ktype == 2 ==> (arg0.Key.tnumber == 1 <==> rin(lm.readerAt)[(off - tyw(lm.vtype)) - 1] == 1)
+//@   requires(ki8) tyw(lm.vtype) != 0 && lm.ktype == 3 ==> int8(arg0.Key.tnumber) == int8(rin(lm.readerAt)[(off - tyw(lm.vtype)) - 1])
+//@   requires(kdouble) tyw(lm.vtype) != 0 && lm.ktype == 4 ==> arg0.Key.tnumber == be64at(rin(lm.readerAt), (off - tyw(lm.vtype)) - 8)
+//@   requires(ki16) tyw(lm.vtype) != 0 && lm.ktype == 6 ==> int16(arg0.Key.tnumber) == int16(be16at(rin(lm.readerAt), (off - tyw(lm.vtype)) - 2))
+//@   requires(ki32) tyw(lm.vtype) != 0 && lm.ktype == 8 ==> int32(arg0.Key.tnumber) == int32(be32at(rin(lm.readerAt), (off - tyw(lm.vtype)) - 4))
+//@   requires(ki64) tyw(lm.vtype) != 0 && lm.ktype == 10 ==> int64(arg0.Key.tnumber) == int64(be64at(rin(lm.readerAt), (off - tyw(lm.vtype)) - 8))
+//@   modifies all, fecalls(lm)
+//@   ensures fecalls(lm) == old(fecalls(lm)) + 1
+//@   ensures lazyKept(0)
+//@   ensures unchanged(reader, or) && unchanged(reader, sr) && unchanged(offsetReader, reader) && unchanged(StreamReader, reader) && unchanged(Reader, reader)
+
+//@ contract (*lazyMapItemList).ForEach
+//@   props C02 C03
+//@   requires lm != nil && lm.count >= 0 && lm.startOffset >= 0 && lm.startOffset <= 4611686018427387904
+//@   let a = rin(lm.readerAt)
+//@   let c0 = fecalls(lm)
+//@   let n = lm.count
+//@   let kt = lm.ktype
+//@   let vt = lm.vtype
+//@   let start = lm.startOffset
+//@   let ra = lm.readerAt
+//@   modifies all, fecalls(lm)
+//@   loop 1: invariant lm.count == n && lm.ktype == kt && lm.vtype == vt && lm.startOffset == start && lm.readerAt == ra && 0 <= i && i <= n
+//@   loop 1: invariant(rd) reader.or != nil && reader.sr != nil && typeis(reader.sr.reader, *offsetReader) && reader.sr.reader.(*offsetReader) == reader.or && reader.or.reader == ra && off >= 0 && off <= 4611686018427387904
+//@   loop 1: invariant(seq) mapEnd(a, kt, vt, int64(n) - int64(i), off) == mapEnd(a, kt, vt, int64(n), start)
+//@   loop 1: invariant(calls) fecalls(lm) == c0 + int64(i)
+//@   loop 1: invariant(kept) unchanged(Reader, reader)
+//@   loop 1: use unfoldMap(a, kt, vt, int64(n) - int64(i), off)
+//@   loop 1: decreases int64(n) - int64(i)
+//@   ensures(all) err == nil ==> fecalls(lm) == c0 + int64(n)
+//@   ensures(kept) unchanged(Reader, reader)
+
+//@ contract (*lazyMapItemList).KeyType
+//@   inline
+//@ contract (*lazyMapItemList).ValueType
+//@   inline
+//@ contract (*lazyMapItemList).Size
+//@   inline
+
+//@ contract (*lazyValueList).ValueType
+//@   inline
+//@ contract (*lazyValueList).Size
+//@   inline
 
 // Random-access envelope reader (C12): the same functions of the input bytes as
 // the streaming ReadEnvelopeBegin posts, so the two APIs agree on framing,
